@@ -121,6 +121,15 @@ def rule_programs(ctx):
                                        "class Mid extends Base { public static int m = Base.seed + 1; public constructor() -> Mid { super(); return this; } }\n"
                                        "class Leaf extends Mid { public static int l = m + seed; public constructor() -> Leaf { super(); return this; } }\n"
                                        "function main() -> void { echo(Leaf.l); echo(Mid.m); }\n"),
+        ("static-init-inside-a-call", "class Report { public static int total = Report.price(1000); public constructor() -> Report = default;\n"
+                                      "    public static function price(int rate) -> int { int bonus = 7; return rate + Tariff.surcharge + bonus; } }\n"
+                                      "class Tariff { public static int rate = 4; public static int bonus = 1; public static int surcharge = rate + bonus; public constructor() -> Tariff = default; }\n"
+                                      "function main() -> void { echo(Report.total); echo(Tariff.surcharge); }\n"),
+        ("static-init-inside-a-method", "class Meter { public int rate = 9; public constructor() -> Meter = default;\n"
+                                        "    public function read(int scale) -> int { int rate2 = scale; return this.rate * Conf.factor + rate2; } }\n"
+                                        "class Conf { public static int scale = 3; public static int factor = scale + 1; public constructor() -> Conf = default; }\n"
+                                        "class Boot { public static int first = new Meter().read(50); public constructor() -> Boot = default; }\n"
+                                        "function main() -> void { echo(Boot.first); echo(Conf.factor); }\n"),
         ("generic-middle-base", "class D extends G<int> { public constructor() -> D { super(); return this; } }\n"
                                 "class G<T> extends B { public T t; public constructor() -> G<T> { super(); return this; } }\n"
                                 "class B { public int x = 5; public int y = 7; public constructor() -> B { return this; } }\n"
